@@ -188,6 +188,10 @@ func (r *runner) try(oc *origCtx, res *jobResult, y []byte, edit string, pos int
 	}
 	for _, v := range viols {
 		f := &Finding{Kind: oc.o.Kind, Rule: v.Rule, Edit: edit, Region: oc.l.Region(pos), Name: oc.o.Name, Original: hx(oc.o.Bytes), Mutated: hx(y), Detail: v.Detail}
+		if rebind == "members" && v.Rule == "same-hash-second-encoding" {
+			// one narrow signature for reorder and drop alike
+			f.Edit, f.Region = "multisig-member-list", "sig"
+		}
 		for _, s := range oc.o.Signers {
 			f.Signers = append(f.Signers, s.String())
 		}
@@ -443,7 +447,7 @@ func (r *runner) malleate(oc *origCtx, res *jobResult) {
 	x := oc.o.Bytes
 	seen := map[string]bool{}
 	if n := len(oc.l.Sigs); oc.o.Multi && n > 1 {
-		// multisig member list rewrites (not demanded by the property, counted only; see Relate)
+		// multisig member list rewrites: accepted ones are second valid encodings (see Relate)
 		rev := make([]int, n)
 		for i := range rev {
 			rev[i] = n - 1 - i
